@@ -332,3 +332,98 @@ func runStormScenario(c shutCase) (res shutResult) {
 	other.Close()
 	return
 }
+
+var closeRaceWorkerKinds = []string{"kv", "xattr", "view", "view", "query", "subdoc", "colls"}
+
+// runCloseRaceScenario: the bucket stays open through a base handle; round after round a further
+// handle is opened, c.Workers goroutines call into the bucket through it as fast as they can, and
+// after a few (seeded) microseconds that handle is closed under them - so that, over the rounds, a
+// Close lands between any two steps of a call in flight. The calls may fail; nothing may panic
+// (the parent sees the child die) or block, and the bucket must stay usable through the base handle.
+func runCloseRaceScenario(c shutCase) (res shutResult) {
+	bad := func(clause, f string, a ...any) {
+		res.Devs = append(res.Devs, Deviation{Clause: clause, Props: []string{"C20"}, Sig: clause + "|closeRace", Msg: fmt.Sprintf(f, a...)})
+	}
+	w, err := NewWorld(Config{Disk: c.Disk, Handles: 1, Colls: allCollNames[:2]})
+	if err != nil {
+		bad("shut.setup", "%v", err)
+		return
+	}
+	if vs, ok := w.Coll(0, 0).(sgbucket.ViewStore); ok {
+		_ = vs.PutDDoc(ctx, "dd", designDoc(map[string]ViewSpec{"v": {Emits: []string{"id|one"}}}))
+	}
+	for i := 0; i < 4; i++ {
+		_ = w.Coll(0, 0).Set(fmt.Sprintf("k%d", i), 0, nil, []byte(fmt.Sprintf(`{"n":%d}`, i)))
+	}
+	rng := rand.New(rand.NewSource(c.Seed))
+	rounds := 100 + c.After
+	var total atomic.Int64
+	for round := 0; round < rounds; round++ {
+		hx, oerr := rosmar.OpenBucket(w.URL, w.Name, rosmar.ReOpenExisting)
+		if oerr != nil {
+			bad("shut.reopen", "round %d: a further handle of the open bucket cannot be opened: %v", round, oerr)
+			return
+		}
+		wx := &World{Cfg: w.Cfg, Handles: []*rosmar.Bucket{hx}, Name: w.Name, URL: w.URL}
+		var stop atomic.Bool
+		var wg sync.WaitGroup
+		var feedDones []chan struct{}
+		var fmu sync.Mutex
+		for wi, kind := range c.Workers {
+			wg.Add(1)
+			go func(wi int, kind string) {
+				defer wg.Done()
+				r := rand.New(rand.NewSource(c.Seed*131 + int64(round)*17 + int64(wi)))
+				for !stop.Load() {
+					stormCall(wx, kind, r, 0, r.Intn(2), &feedDones, &fmu)
+					total.Add(1)
+				}
+			}(wi, kind)
+		}
+		time.Sleep(time.Duration(rng.Intn(400)) * time.Microsecond)
+		closed := make(chan struct{})
+		go func() { hx.Close(ctx); close(closed) }()
+		select {
+		case <-closed:
+		case <-time.After(30 * time.Second):
+			bad("shut.deadlock", "round %d: Close of a handle did not return within 30 s while %v workers were calling through it", round, c.Workers)
+			return
+		}
+		time.Sleep(time.Duration(rng.Intn(300)) * time.Microsecond)
+		stop.Store(true)
+		wdone := make(chan struct{})
+		go func() { wg.Wait(); close(wdone) }()
+		select {
+		case <-wdone:
+		case <-time.After(30 * time.Second):
+			bad("shut.deadlock", "round %d: a call that raced with Close never returned (workers %v)", round, c.Workers)
+			return
+		}
+	}
+	res.InFlight = total.Load() > int64(rounds)
+	res.Log = append(res.Log, fmt.Sprintf("%d rounds, %d calls through handles closed under them", rounds, total.Load()))
+	probe := make(chan error, 1)
+	go func() { probe <- w.Coll(0, 0).Set("p", 0, nil, []byte(`1`)) }()
+	select {
+	case err := <-probe:
+		if err != nil {
+			bad("shut.survivor", "a write through the handle that stayed open failed after the rounds: %v", err)
+		}
+	case <-time.After(10 * time.Second):
+		bad("shut.deadlock", "a write through the handle that stayed open blocks: a lock was left held")
+	}
+	_ = w.Handles[0].CloseAndDelete(ctx)
+	deadline := time.Now().Add(3 * time.Second)
+	var left []string
+	for {
+		left = rosmarGoroutines()
+		if len(left) == 0 || time.Now().After(deadline) {
+			break
+		}
+		time.Sleep(50 * time.Millisecond)
+	}
+	if len(left) > 0 {
+		bad("shut.leak", "%d rosmar goroutine(s) still running 3 s after CloseAndDelete: %v", len(left), left)
+	}
+	return
+}
